@@ -136,8 +136,8 @@ def scan_assumptions(text):
 
 
 REPLAY_BIN = os.path.join(WORK, 'replay-target', 'debug', 'cachelito-replay')
-UNIT_FLAVOUR = {'global_cache': 'global', 'thread_local_cache': 'thread', 'async_cache': 'async'}
-DYNAMIC_UNITS = ('global_cache', 'thread_local_cache', 'async_cache', 'wrappers_global', 'wrappers_thread', 'wrappers_async', 'keys')
+UNIT_FLAVOUR = {'global_cache': 'global', 'thread_local_cache': 'thread', 'async_cache': 'async', 'scores': 'global', 'utils': 'global'}
+DYNAMIC_UNITS = ('scores', 'utils', 'global_cache', 'thread_local_cache', 'async_cache', 'wrappers_global', 'wrappers_thread', 'wrappers_async', 'keys')
 
 
 def build_replay():
@@ -238,6 +238,48 @@ def lock_check(kinds, prop):
         if len(obs) == 0:
             res['undecided'].append('lock analysis produced zero obligations')
         res['notes'].append('%d %s obligations generated from the original source text and the real macro expansions' % (len(obs), '/'.join(kinds)))
+        return res
+    return run
+
+
+def pre_await_check(prop):
+    """C20: in every #[cache_async] expansion the only cache operation before the awaited body is the lookup
+    (`__cache.get`); the statics are not touched directly before the `.await`."""
+    def run(tier):
+        from . import expand, wrappers as W
+        res = dict(obligations={}, violations=[], undecided=[], functions=[], checker_cmds=['syntactic scan of the macro expansion (python)'], trusted={}, notes=[])
+        try:
+            exp = expand.expand_fixtures()
+            attrs_all = W.parse_attrs()
+        except ExtractError as e:
+            res['undecided'].append('macro expansion: %s' % e)
+            return res
+        for name, attrs in sorted(attrs_all.items()):
+            if attrs['macro'] != 'cache_async':
+                continue
+            try:
+                info = W.extract(exp, name, attrs)
+            except (ExtractError, ValueError, AttributeError) as e:
+                res['undecided'].append('fixture %s: %s' % (name, e))
+                continue
+            tail = info['tail']
+            m = re.search(r'\.\s*await\b', tail)
+            oname = 'expansion/%s::pre_await_segment_only_looks_up' % name
+            res['obligations'][oname] = 'structural'
+            if not m:
+                res['undecided'].append('fixture %s: no .await found in the emitted tail' % name)
+                continue
+            pre = tail[:m.start()]
+            # cut at the start of the awaited expression `(async {`
+            ma = list(re.finditer(r'\(\s*async\b', pre))
+            if ma:
+                pre = pre[:ma[-1].start()]
+            ops = set(re.findall(r'\b__cache\s*\.\s*(\w+)\s*\(', pre))
+            direct = re.findall(r'\b__(?:CACHE|ORDER)_\w+\s*\.\s*\w+', pre)
+            bad = sorted(ops - {'get'}) + direct
+            if bad:
+                text = 'before the awaited body the expansion performs %s (only __cache.get is allowed)' % bad
+                res['violations'].append(dict(obligation=oname, message=text, site='macro-expansion of fixtures/src/lib.rs fn %s' % name, rendered=text))
         return res
     return run
 
